@@ -25,3 +25,7 @@ def run(repo, res, tier):
     # the dialect's rules for times live in the decoder (and grammar) the caller chose: the file entry points hand both on
     from .. import entryrules as _er14
     _er14.rule_f1(repo, res, "__init__")
+    # a date-time (or an instance of a subclass of datetime) is written as a date-time: the dispatch of encode_datetype tests
+    # membership (isinstance), the subclass before its superclass
+    from .. import encrules as _enc14
+    _enc14.rule_d1(repo, res)
